@@ -150,7 +150,7 @@ def main():
         else:
             real.append(v)
     for key, v in seen_known.items():
-        print(f"KNOWN-FINDING: property={pid} key={key} {v.what}")
+        print(f"KNOWN-FINDING: property={pid} key={key} " + " ".join(str(v.what).split()))
     for key in known:
         if key not in seen_known:
             notes.append(f"known finding {key} was not reproduced by this run")
@@ -165,7 +165,8 @@ def main():
         with open(rp, "w") as f:
             json.dump({"property": pid, "key": v.key, "what": v.what, "replay": v.replay}, f, indent=1, default=str)
         tail = " no-failing-input-found" if (isinstance(v.replay, dict) and v.replay.get("no_failing_input_found")) else ""
-        print(f"VIOLATION property={pid} replay={rp} key={v.key} :: {v.what[:300]}{tail}")
+        oneline = " ".join(str(v.what)[:300].split())          # one line, so that the marker is at the end of THE line
+        print(f"VIOLATION property={pid} replay={rp} key={v.key} :: {oneline}{tail}")
 
     # 4. evidence -------------------------------------------------------------------
     cov = {
